@@ -23,7 +23,7 @@ func init() {
 			{"SYNC-BEFORE-MERGE", ruleSyncBeforeMerge},
 		},
 		Meta: eng.PropMeta{
-			Explanation: "Decides the structural conditions of 'signatures cover the commit and forged commits are not merged' (cryptographic soundness is not decided): (SIGN-BYTES) signer and verifier hash the same thing — signBlock marshals the block before the only store to block.Signature and signs exactly those bytes; getBlockBytesToSign clears Signature on a copy and marshals with the block schema; in AddDelta signing happens after encryption and before putBlock on the block that is stored; (VERIFY-BEFORE-FOLLOW) in loadBlockLinks, on the Signature != nil edge VerifyBlockSignature precedes every link load and its error edge returns; (VERIFY-KEYMATCH) VerifyBlockSignatureWithKey compares the signature header's identity with the supplied key before verifying, both verifiers pass (key, signed bytes, signature value) to verifySignature, and verifySignature maps valid == false to an error; (SIGN-CONTEXT) save and applyDelete enable signing unless signing is disabled; (SIGTYPE-TABLES) the key-type tables of signer and verifier agree; (SYNC-BEFORE-MERGE) the merge event is unreachable after a failed verification/sync. SIGN-BYTES is field-complete: the bytes that are signed/verified encode every field of Block except Signature (a value copy with Signature cleared, or a literal naming every other field), and signBlock may take them from that shared helper.",
+			Explanation: "Decides the structural conditions of 'signatures cover the commit and forged commits are not merged' (cryptographic soundness is not decided): (SIGN-BYTES) signer and verifier hash the same thing — signBlock marshals the block before the only store to block.Signature and signs exactly those bytes; getBlockBytesToSign clears Signature on a copy and marshals with the block schema; in AddDelta signing happens after encryption and before putBlock on the block that is stored; (VERIFY-BEFORE-FOLLOW) in loadBlockLinks, on the Signature != nil edge VerifyBlockSignature precedes every link load and its error edge returns; (VERIFY-KEYMATCH) VerifyBlockSignatureWithKey compares the signature header's identity with the supplied key before verifying, both verifiers pass (key, signed bytes, signature value) to verifySignature, and verifySignature maps valid == false to an error; (SIGN-CONTEXT) save and applyDelete enable signing unless signing is disabled; (SIGTYPE-TABLES) the key-type tables of signer and verifier agree; (SYNC-BEFORE-MERGE) the merge event is unreachable after a failed verification/sync. SIGN-BYTES is field-complete: the bytes that are signed/verified encode every field of Block except Signature (a value copy with Signature cleared, or a literal naming every other field), and signBlock may take them from that shared helper. (MERGE-CID-BOUND) as in C04: the commit whose merge is requested on receipt is the commit that was verified and synced.",
 			NotDecided:  "cryptographic soundness of the signature schemes; that verification fails for every single-field tampering (a for-all over values); field blocks of height > 1 are unsigned by design",
 		},
 	})
